@@ -181,7 +181,7 @@ def rule_r4(ctx) -> List[R.Inst]:
                 # holds the sentinel: the scaling must be guarded, or 'unset' becomes a real time (-1 / 2 = -0.5, written as 0)
                 dv = _declared_default(ctx, cls, f)
                 if dv is not _NODEFAULT and (dv is None or (isinstance(dv, (int, float)) and not isinstance(dv, bool) and dv < 0)):
-                    guarded = False
+                    guarded = f in getattr(sc, "guarded", set())      # (a None-guard inside dataclasses.replace(..): rate_model)
                     if ("reamber." + got[2]) in M.funcs:
                         for n in ast.walk(M.nfn("reamber." + got[2]).node):      # (the model interprets the normal form)
                             if isinstance(n, ast.If) and any(x is got[1] for b in n.body for x in ast.walk(b)) and f in unparse(n.test):
